@@ -179,6 +179,9 @@ pub enum Binding {
     MerkleAligned,
     /// the same with a last leaf of 1..1023 bytes
     Merkle,
+    /// default binding, signed and validated without trust anchors: the signing credential is
+    /// logged as untrusted (a tolerated failure) and the state is Valid instead of Trusted
+    NoTrust,
 }
 
 pub fn binding_overlay(b: Binding) -> Value {
@@ -186,6 +189,7 @@ pub fn binding_overlay(b: Binding) -> Value {
         Binding::Default => json!({}),
         Binding::Box => json!({ "core": { "prefer_compress_manifests": true } }),
         Binding::Merkle | Binding::MerkleAligned => json!({ "core": { "merkle_tree_chunk_size_in_kb": 1 } }),
+        Binding::NoTrust => json!({ "trust": { "trust_anchors": null, "trust_config": null, "user_anchors": null } }),
     }
 }
 
